@@ -5,12 +5,16 @@ from contracts import multivector_c as M
 from . import common as K
 
 LEVEL = 'other'
-EXPLANATION = ('Proved: codegen_sw/proj/normsq return literally x*y*~x, (x|y)*~y, x*~x evaluated with the elementary operators on the symbolic '
-               'operands (whose contracts are C02-C04); OperatorDict.filter keeps exactly the (key, simplified value) pairs whose simplified '
-               'value is truthy, order and pairing preserved; a>>b, a@b, normsq() reach these operators with operands in order.  "Drops only '
-               'identically-zero coefficients" then rests on the exact zero test of the coefficient class (RationalPolynomial: C17; sympy: '
-               'assumed) and on lambdify/CSE (assumed).  Bounded: the real composite operators on polynomial coefficients against the real '
-               'elementary compositions and the reference (exhaustive d<=1, grade blocks + seeded d<=5).')
+EXPLANATION = ('Proved: (a) structure: codegen_sw/proj/normsq return literally x*y*~x, (x|y)*~y, x*~x evaluated with the elementary operators on the '
+               'symbolic operands (whose contracts are C02-C04); (b) algebra (contracts/inverse_c.py, vc_compositions_generic): the same real bodies - '
+               'with codegen_product inlined when a body calls it - interpreted on generic operands (one indeterminate per blade; x generic / even / '
+               'odd, y generic / each single grade) return those compositions as polynomial identities, coefficient by coefficient, for every '
+               'signature with d <= 3 and four (thorough: all 81) with d = 4: no blade is dropped unless its coefficient is identically zero; '
+               '(c) OperatorDict.filter keeps exactly the (key, simplified value) pairs whose simplified value is truthy, order and pairing '
+               'preserved; a>>b, a@b, normsq() reach these operators with operands in order.  "Drops only identically-zero coefficients" at run time '
+               'rests on the exact zero test of the coefficient class (RationalPolynomial: C17; sympy: assumed) and on lambdify/CSE (assumed).  '
+               'Bounded: the real composite operators on polynomial coefficients against the real elementary compositions '
+               '(exhaustive d<=1, grade blocks + seeded d<=5).')
 TRUSTED = ['z3 5.1 (python API)', 'kvc VC generator', 'CPython ast module']
 ASSUMPTIONS = [K.ASSUME_CPYTHON, K.ASSUME_TAIL, 'RationalPolynomial truthiness is an exact zero test (C17)',
                'sympy simplify/expand return 0 only for identically-zero input']
@@ -19,6 +23,8 @@ ASSUMED = ['lambdify with CSE', 'simp_func on sympy expressions']
 
 def build(H, tier, seed):
     U.vc_compositions(H)
+    from contracts import inverse_c as I
+    I.vc_compositions_generic(H, tier)
     D.vc_filter(H)
     D.vc_call_binary(H)
     D.vc_unary_call(H)
